@@ -72,8 +72,13 @@ def gen_language(rng, h):
             ops.append((f"d{i}", (0, t, []), [], t))
             continue
         if kind == "mono":
-            params = [E.gen_sty(rng, h, 0, 1, p_var=0, p_wild=0) for _ in range(rng.randint(1, 3))]
-            res = E.gen_sty(rng, h, 0, 1, p_var=0, p_wild=0)
+            # a signature without schematic variables may still mention `_` (written `lambda: A ** F(_)`):
+            # every instance gets its own variable for it
+            pw = 0.2 if rng.random() < 0.35 else 0
+            params = [E.gen_sty(rng, h, 0, 1, p_var=0, p_wild=pw) for _ in range(rng.randint(1, 3))]
+            res = E.gen_sty(rng, h, 0, 1, p_var=0, p_wild=pw / 2)
+            if res[0] == "w":
+                res = rng.choice(base)
             n, cs = 0, []
         elif kind == "poly":
             n = rng.randint(1, 2)
